@@ -43,7 +43,7 @@ def classify(text):
         return "resource", 0
 
 
-def offer(text, offset, other=False):
+def offer(text, offset, other=False, native=False):
     """Call the real verify() on `text` with the given line offset; -> event for TraceVerify.
     other=True: the text is offered as ANOTHER file of a multi-file submission (verify(text, filename='helper.py'));
     the main file's section offset does not apply to it and the stored helper file is shorter than the text."""
@@ -67,10 +67,11 @@ def offer(text, offset, other=False):
     ev = {"cls": cls, "line": line, "offset": offset, "raised": False, "nsyntax": 0, "fbline": 0, "blankfb": False,
           "tree_ok": False, "tbline": 0}
     try:
+        # native=True: the documented option enhance=False (the interpreter's own wording instead of pedal's)
         if other:
-            verify(text, filename="helper.py", report=R)
+            verify(text, filename="helper.py", report=R, enhance=not native)
         else:
-            verify(report=R)
+            verify(report=R, enhance=not native)
     except Exception as e:
         ev["raised"] = True
         ev["error"] = "%s: %s" % (type(e).__name__, e)
@@ -149,8 +150,10 @@ def corpus_texts(seed, n):
         if 0 < len(t) < 3000:
             base.append(t)
     base += [t for ts in TEMPLATES.values() for t in ts]
+    # texts whose parser message quotes a brace
+    base += ["d = {1: 2\nprint(d)\n", "s = {1, 2\n", "x = (1, 2}\n", "print(f'{x')\n", "y = 3}\n", "z = [1, 2}\n"]
     out = []
-    alphabet = ["(", ")", ":", " ", "\t", "\n", "\x0c", "\r", "\x00", "'", '"', "=", "é", ",", "[", "\\"]
+    alphabet = ["(", ")", ":", " ", "\t", "\n", "\x0c", "\r", "\x00", "'", '"', "=", "é", ",", "[", "\\", "{", "}", "]"]
     for i in range(n):
         t = rng.choice(base)
         k = rng.randint(0, 3)
@@ -176,7 +179,7 @@ def text_chunk(items, extra):
     for item in items:
         text, offset = item[:2]
         fresh()
-        ev = offer(text, offset, other=len(item) > 2 and item[2] == "other")
+        ev = offer(text, offset, other=len(item) > 2 and item[2] == "other", native=len(item) > 2 and item[2] == "native")
         out.append({"events": [ev], "texts": [text]})
     return out
 
